@@ -84,8 +84,8 @@ CLAIMED = {
    text="Lean theorems over a model of routing.rs path functions (PathBuilder, get_locale_from_path, get_new_path, localize_path, match/construct_path_segments): "
         "a locale is read iff the first segment after the base equals a locale name (C14_locale_from_path_iff); switching preserves every non-locale, non-localized "
         "segment, query and fragment (C14_switch_preserves/_meets_spec); A→B→A is the identity on normalised URLs under an explicit decidable compatibility hypothesis "
-        "(C14_switch_roundtrip); C14_match_iff_serves (the matcher succeeds iff the route declaratively serves the path) and C14_switch_rewrites_localized (if the old URL is served by a route of the old locale, the new URL is served by the same route of the new locale: every localized segment is rewritten). Correspondence: router_h include!s the private routing.rs and runs the real functions on generated locale sets, base paths, tables, paths and switch sequences.",
-   note=BASE + "generate_routes/match_nested and leptos_router's own matching are not modelled (tables assumed position-wise compatible); see notes/C14.md. No hooks (include!).",
+        "(C14_switch_roundtrip); C14_match_iff_serves (the matcher succeeds iff the route declaratively serves the path) and C14_switch_rewrites_localized (if the old URL is served by a route of the old locale, the new URL is served by the same route of the new locale: every localized segment is rewritten); C14_nested_* (Theorems/C14Nested.lean: the nested-route specification reports a locale only for an exact first segment, un-prefixed URLs use the default locale's segments). Correspondence: the real I18nNestedRoute driven natively vs leptos_router on each locale's plain tree, generated tables vs compatTables; router_h include!s the private routing.rs and runs the real functions on generated locale sets, base paths, tables, paths and switch sequences.",
+   note=BASE + "match_nested / generate_routes are specified and run (impl vs spec), not modelled in Lean; leptos_router's own matching is the oracle there; see notes/C14.md. No hooks (include!).",
    tech="Lean 4 proof (induction over segment lists) + differential correspondence", ref="§6 C14, notes/C14.md"),
  "C15": dict(
    text="Lean theorems stating the documented precedence outright over a model of fetch_locale/resolve_locale/init_*context (cookie > Accept-Language match > default; sub-context: cookie > initial > parent > resolution; "
@@ -107,11 +107,11 @@ CLAIMED = {
    tech="Lean 4 proof (induction over request list, stable-sort head lemma) + differential correspondence", ref="§6 C12"),
  "C17": dict(
    text="Theorems: C17_embed_decode (decoding the embedded JS literal gives back exactly the units, for ALL unit lists and ALL Unicode strings), C17_embed_no_lt / C17_embed_script_safe (no `<`, hence no </script or <!--), "
-        "C17_register_exact / _order_insensitive / _untouched (registered set = units touched by the render history). Correspondence: the real RegisterCtx::{provide_context, register, to_array} with runtime strings fed through a StringArray handle, 1-3 concurrent renders; output judged by the Lean decoder and serde_json.",
-   note=BASE + "The browser's JS parser ~ the JS-literal decoder of the spec; hydrate-side wasm code and <I18nContextProvider> rendering not executed. Locale names / unit ids are pushed unescaped (identifiers): explicit hypothesis UnitNamesOk.", tech="Lean 4 proof (encoder/decoder round trip by induction) + differential correspondence", ref="§6 C17, notes/C17.md"),
+        "C17_register_exact / _order_insensitive / _untouched (registered set = units touched by the render history). Correspondence: the real RegisterCtx::{provide_context, register, to_array} with runtime strings fed through a StringArray handle, 1-3 concurrent renders, and "real renders" (the generated accessors t_string!/t_display!/td_string!/t! inside the generated <I18nContextProvider>, several renders per process); output judged by the Lean decoder and serde_json.",
+   note=BASE + "The browser's JS parser ~ the JS-literal decoder of the spec; hydrate-side wasm code, streaming / islands rendering not executed. Locale names / unit ids are pushed unescaped (identifiers): explicit hypothesis UnitNamesOk.", tech="Lean 4 proof (encoder/decoder round trip by induction) + differential correspondence", ref="§6 C17, notes/C17.md"),
  "C18": dict(
    text="Theorems: C18_formatter_args (from_name_and_args = the documented option table: first recognised occurrence else default), C18_unknown_option_ignored, C18_whitespace_insensitive, C18_unknown_name, C18_t_format_agrees (file syntax and t*_format! agree), with C06_populate_subst for formatted variables reached through `$t(..)` (checked on every clause), "
-        "C18_cache_memo / _commutes / _threads (every request served make(key) whatever the history or schedule of atomic steps). Correspondence: exhaustive option product x whitespace variants through the real parser; formatted output vs direct ICU4X calls on 8 locales; request histories in one process; 16-thread races (support).",
+        "C18_cache_memo / _commutes / _threads (every request served make(key) whatever the history or schedule of atomic steps). Correspondence: exhaustive option product x whitespace variants through the real parser, every clause also through `$t(..)` references; formatted output vs direct ICU4X calls on 8 locales, also in a build WITHOUT icu_compiled_data behind a recording custom provider (every constructor asked for exactly once with the right locale and options); t_format! views following set_locale; request histories in one process; 16-thread races (support).",
    note=BASE + "ICU4X output is the oracle (no theorem); RwLock atomicity and leaked formatters trusted. Known finding C18-zone: time_length full|long cannot be rendered.", tech="Lean 4 proof + differential correspondence + ICU4X oracle", ref="§6 C18, notes/C18.md"),
  "C19": dict(
    text="Theorems over Config.new: C19_default_first (default first, present, no duplicates, set = listed + default), C19_duplicates_rejected, C19_inherits_valid / _unknown_rejected / _default_inherits_rejected, C19_required_fields, C19_unknown_ignored, "
